@@ -6,6 +6,7 @@ prop, sdir, name = sys.argv[1], sys.argv[2], sys.argv[3]
 tier = 'quick'
 if '--tier' in sys.argv: tier = sys.argv[sys.argv.index('--tier')+1]
 skip_confirm = '--skip-confirm' in sys.argv
+confirm_only = '--confirm-only' in sys.argv
 env = dict(os.environ, GOFLAGS='-mod=mod', GOPROXY='off', GOSUMDB='off', GOTOOLCHAIN='local', GOWORK='off')
 def run(cmd, cwd=None, timeout=1800):
     p = subprocess.run(cmd, shell=True, cwd=cwd, env=env, capture_output=True, text=True, timeout=timeout)
@@ -23,7 +24,8 @@ if skip_confirm and os.path.exists(old_meta_path):
     elif 'first_run_detected' in old:
         meta['first_run_detected'] = old['first_run_detected']
     ran = [r for r in old.get('what_i_ran', []) if 'check' not in r]
-ran = []
+else:
+    ran = []
 notes = open(os.path.join(sdir, 'notes.txt')).read() if os.path.exists(os.path.join(sdir, 'notes.txt')) else ''
 meta["needs_to_manifest"] = notes.strip()
 if not skip_confirm:
@@ -51,6 +53,15 @@ if not skip_confirm:
         ran += ['git apply patch.diff (scratch worktree)', 'go build ./...', 'go test -vet=off -count=1 ./...', f'go test -run {tname} ./{pkgdir}/ (with and without the change)']
     finally:
         run(f'git -C /repo worktree remove --force {wt}')
+if confirm_only:
+    meta['what_i_ran'] = ran
+    d = f'/verif/seeded/{name}'
+    os.makedirs(d, exist_ok=True)
+    shutil.copy(patch, d + '/patch.diff')
+    if os.path.exists(demo): shutil.copy(demo, d + '/demo_test.go')
+    json.dump(meta, open(d + '/meta.json', 'w'), indent=1)
+    print(name, 'confirmed=', meta.get('compiles'), meta.get('suite_passes_with_change'), meta.get('demo_fails_with_change'), meta.get('demo_passes_without_change'))
+    sys.exit(0)
 # run the check against /repo with the change
 rc, out = run('git -C /repo status --porcelain --untracked-files=no'); assert out.strip() == '', 'repo dirty: ' + out
 rc, out = run(f'git -C /repo apply {patch}'); assert rc == 0, out
